@@ -165,6 +165,9 @@ def gen_steps(rng, obj, n, *, bad_rate=0.0, malformed_rate=0.0, setter_bias=1.0,
                 ext *= s
                 dist *= s
                 st["arg"] = {"kind": "factor", "f": f}
+                if rng.chance(0.12):
+                    # the same positive number as another numeric type a caller may hold
+                    st["arg"]["astype"] = rng.choice(["int", "np_int"])
                 if name == "radius" and rng.chance(0.2):
                     st["arg"] = {"kind": "abs_zero"}
         st["win"] = [ext_range[0], ext_range[1], coord_max]
@@ -256,7 +259,15 @@ def resolve_arg(obj, st, world=None):
 
             if not inside(f):
                 f = 1.0 / f if inside(1.0 / f) else 1.0
-        return base * f, cur
+        v = base * f
+        how = arg.get("astype")
+        if how in ("int", "np_int") and 2.0 <= v < 1e15 and abs(round(v) / v - 1.0) < 0.3:
+            v = int(round(v)) if how == "int" else np.int64(round(v))
+        elif how == "f32" and 1e-30 < v < 1e30:
+            v = np.float32(v)
+        elif how == "zero_d":
+            v = np.array(v)
+        return v, cur
     if kind == "bad":
         if arg["bad"] == "zero":
             return 0.0, cur
